@@ -651,10 +651,13 @@ class SpecGen:
         # members of the block; the second one stands apart
         col0 = self.width[sheet] + 1 + 3 * n
         row0 = 1 + 4 * n
-        kind = rnd.choice(('lift', 'lift2', 'scalar', 'trim', 'fill', 'reduce', 'mixed', 'mixed'))
+        kind = rnd.choice(('lift', 'lift2', 'scalar', 'trim', 'fill', 'reduce', 'mixed', 'mixed',
+                           'copy'))
         th, tw = h, w
         prec = list(src)
-        if kind == 'lift':
+        if kind == 'copy':
+            f = f'={src_txt}'          # blanks of the source are zeros of the array
+        elif kind == 'lift':
             f = f'={src_txt}*{rnd.choice((2, 0.5, -1))}'
         elif kind == 'lift2':
             f = f'={src_txt}+{src_txt}*{rnd.choice((1, 3))}'
